@@ -12,7 +12,8 @@ PROPS["C18"] = dict(
              require=["mirror.table.nil", "mirror.table.empty", "mirror.table.one", "mirror.table.multi", "mirror.value.s", "mirror.value.l",
                       "mirror.invalid", "mirrors.0", "mirrors.2", "mirrors.3", "spawn.fetch", "spawn.check",
                       "answer.403", "answer.400", "answer.401", "answer.401.basic", "answer.401.bearer", "answer.3xx", "answer.2xx",
-                      "pull.noauth", "pull.userpass", "pull.useronly", "pull.token", "pull.sa.empty", "pull.sa.url"]),
+                      "pull.noauth", "pull.userpass", "pull.useronly", "pull.token", "pull.sa.empty", "pull.sa.url",
+                      "location.absolute", "location.absolute-other-spelling", "location.scheme-relative", "location.no-host-reference"]),
     ],
     rule="creds: random histories (3..24 ops) of CRI connect / PullImage (image strings incl. docker.io short forms, digests, unparsable; "
          "auth = user+password | identity token | base64 auth (valid, NUL-padded, no colon, invalid) | several | none; server address empty | URL | "
@@ -24,7 +25,7 @@ PROPS["C18"] = dict(
          "keychain (user+password | user only | identity token | bad | none; server address none / a mirror / origin / CDN / unparsable) feeding the real docker authorizers, "
          "scripted answers for resolution and size probe incl. 401 Basic/Bearer challenges and token-server answers (200, bad JSON, 400/401/403/404/405, error), then up to 5 "
          "concurrent fetch/check calls run under a deterministic scheduler (held at the fetcher's scheduling point and at every request) with answers "
-         "200/206/204/3xx(+Location: CDN, same-host URL, another mirror's blob URL, none)/400/401(+Basic, Bearer realm 0/1, invalid_token, no realm)/403/404/transport error; non-trivial = a redirect location "
+         "200/206/204/3xx(+Location forms: absolute https/http/upper-case scheme/userinfo/fragment/other port on a CDN or a registry host, another mirror's blob URL, scheme-relative //host/path to a CDN or registry host, path-absolute, path-relative, query-only, none)/400/401(+Basic, Bearer realm 0/1, invalid_token, no realm)/403/404/transport error; non-trivial = a redirect location "
          "was contacted, a 403 refresh happened and a configured header was sent; distinct = distinct Coq case terms. "
          "Epilogue per case (oracle only): the image was pulled through the real CRI keychain (server address none / mirror / origin / CDN), the keychain feeds the "
          "real docker authorizer, the current target and then the registry host answer 401 + Basic challenge: an Authorization header may only reach a host the pull's server address names",
